@@ -188,6 +188,30 @@ def method_forms(ctx):
                          impl=[out[1][0], repr(out[1][1])[:300]], expected=[out[0][0], repr(out[0][1])[:300]])
 
 
+def multi_output(ctx):
+    """element-wise ufuncs with several outputs (modf, frexp, divmod): every output is f's output on the raw array AND a time
+    series on x's time axis ('element-wise operations always return such an object')"""
+    fs = [("np.modf", lambda x: np.modf(x)), ("np.frexp", lambda x: np.frexp(x)), ("np.divmod(x,2)", lambda x: np.divmod(x, 2.0)),
+          ("divmod(x,2)", lambda x: divmod(x, 2.0))]
+    for cls, x in objects(ctx.rng):
+        for name, f in fs:
+            inp = dict(level="multi-output", func=name, cls=cls, shape=list(np.shape(x.values)))
+            ctx.case(("mo", name, cls, tuple(np.shape(x.values))))
+            with np.errstate(all="ignore"):
+                ref = f(x.values)
+                try:
+                    r = f(x)
+                except Exception as e:
+                    ctx.fail("oracle", "%s raised %r" % (name, e), inp); continue
+            if not isinstance(r, tuple) or len(r) != len(ref):
+                ctx.fail("oracle", "%s: not a tuple of %d outputs" % (name, len(ref)), inp, impl=type(r).__name__); continue
+            for j, (o, q) in enumerate(zip(r, ref)):
+                if not isinstance(o, type(x)):
+                    ctx.fail("oracle", "%s: output %d is not a time series" % (name, j), inp, impl=type(o).__name__)
+                elif not same(o.values, q) or ns_arr(o.index.values) != ns_arr(x.index.values) or iset_ns(o.time_support) != iset_ns(x.time_support):
+                    ctx.fail("oracle", "%s: output %d differs from f(x.values) / lost the time axis" % (name, j), inp)
+
+
 def two_operands(ctx):
     t = np.arange(4.0)
     a, b = nap.Tsd(t, np.arange(4.0)), nap.Tsd(t, np.ones(4))
@@ -234,7 +258,8 @@ def concat_split(ctx, n_cases):
                 objs.append(nap.TsdTensor(t, 100.0 * j + np.arange(len(ts) * 4).reshape(len(ts), 2, 2), time_support=ep))
         flat = [t for p in parts for t in p]
         ok = all(flat[i] < flat[i + 1] for i in range(len(flat) - 1))
-        for fname, f in (("concatenate", lambda o: np.concatenate(o)), ("vstack", lambda o: np.vstack(o)), ("concatenate(axis=0)", lambda o: np.concatenate(o, axis=0))):
+        for fname, f in (("concatenate", lambda o: np.concatenate(o)), ("vstack", lambda o: np.vstack(o)), ("concatenate(axis=0)", lambda o: np.concatenate(o, axis=0)),
+                         ("concatenate(o, np.int64(0))", lambda o: np.concatenate(o, np.int64(0)))):
             if fname == "vstack" and cls == 0:
                 continue
             inp = dict(level="concat", func=fname, cls=["Tsd", "TsdFrame", "TsdTensor"][cls], parts=parts)
@@ -260,6 +285,15 @@ def concat_split(ctx, n_cases):
                     if cls == 1 and list(r.columns) != ["p", "q"]:
                         ctx.fail("oracle", "%s: column labels lost" % fname, inp)
             lines.append("concatok " + "/".join(enc(p) for p in parts)); metas.append((inp, "0" if raised else "1"))
+        # a positional axis given as a NumPy integer is the axis (joining columns, not time): same numbers as NumPy on the raw arrays
+        if cls == 1 and len({len(p) for p in parts}) == 1:
+            same_t = [nap.TsdFrame(objs[0].t, o.values, columns=["p", "q"], time_support=objs[0].time_support) for o in objs]
+            for ax in (1, np.int64(1), np.int32(-1)):
+                r = np.concatenate(tuple(same_t), ax)
+                ref = np.concatenate(tuple(o.values for o in same_t), ax)
+                if not same(r.values if hasattr(r, "values") else r, ref):
+                    ctx.fail("oracle", "np.concatenate(frames, %r): result differs from NumPy on the raw arrays" % (ax,),
+                             dict(level="concat-axis", axis=repr(ax), n=len(parts[0])), impl=list(np.shape(r)), expected=list(ref.shape))
         # split families on the (valid) first object extended
         n = rng.randint(2, 7)
         t = np.arange(n, dtype=float) + 3
@@ -294,10 +328,11 @@ def concat_split(ctx, n_cases):
 def run(ctx):
     numpy_forms(ctx)
     method_forms(ctx)
+    multi_output(ctx)
     two_operands(ctx)
     concat_split(ctx, 150 if ctx.quick else 2000)
 
 
 def replay(ctx, rec):
-    print("re-run `./check C14 quick` with VERIF_SEED=%s; failing input: %s" % (rec.get("seed"), rec.get("input")))
-    return False
+    print("re-executing the recorded run of `./check C14 quick` with VERIF_SEED=%s; failing input: %s" % (rec.get("seed"), rec.get("input")))
+    return None
